@@ -142,6 +142,8 @@ BH_WEIGHTS = [("none", 5), ("current", 8), ("stale", 4), ("future", 3), ("flip",
               ("extend", 1), ("upper", 1), ("newline", 1), ("empty", 1), ("spaces", 1), ("padded", 1), ("prefixed", 1), ("of_empty", 3)]
 STEP_KINDS = [("ext_bom", 1), ("ext_fm_only", 1), ("ext_trailing_ws", 1), ("ext_nonl", 1), ("ext_stealth", 3), ("ext_empty", 2), ("ext_crlf", 2), ("ext_binary", 1), ("content", 8), ("changes", 5), ("normalize", 3), ("content_dry", 2), ("changes_dry", 1), ("normalize_dry", 1),
               ("cli_content", 2), ("cli_changes", 2), ("atomic", 2), ("ext_valid", 3), ("ext_invalid", 1), ("ext_delete", 1),
+              # shortcuts live here: the SAME text the file already holds is sent again; the previous call is re-sent verbatim
+              ("content_same", 2), ("resend", 2),
               ("bad_both", 1), ("bad_path", 1), ("bad_content", 2), ("ext_lenient", 2)]
 
 
@@ -156,7 +158,7 @@ def gen_history(t: Tape, idx: int, maxlen: int) -> dict:
         kind = t.weighted(STEP_KINDS, "h.kind")
         st = {"kind": kind, "bhk": t.weighted(BH_WEIGHTS, "h.bh")}
         mk = f"{m}s{k}"
-        if kind in ("content", "content_dry", "cli_content", "atomic", "bad_both", "bad_path"):
+        if kind in ("content", "content_dry", "cli_content", "atomic", "bad_both", "bad_path", "content_same"):
             st["text"] = docs.gen_doc(t, mk, t.pick(["canonical", "canonical", "frontmatter", "noenvelope", "holo_repairable"], "h.style"))
             if kind == "atomic":
                 st["text"] = docs.canonical(st["text"])
@@ -193,6 +195,8 @@ def gen_history(t: Tape, idx: int, maxlen: int) -> dict:
             st["path"] = t.pick(["sb/../sb/t.oct.md", "sb/t.txt", "sb/link.oct.md", "sb/t.oct.md.bak"], "h.bp")
         steps.append(st)
     case = {"layer": "L1", "init": init, "steps": steps}
+    # a server keeps ONE WriteTool for its whole life: whatever an instance remembers between calls is part of the history
+    case["shared_tool"] = bool(t.choose(3, "h.shared"))
     if t.flag(200, "h.deep"):
         # the target lives in a directory that does not exist yet: a failing or dry call must not create it
         case["target"] = "sb/nd/deeper/t.oct.md"
@@ -321,6 +325,12 @@ def _run_history(case, stats, root, target, TARGET):
     log = []
     prev_hashes: list = []
     sig_hist = []
+    shared_tool = None
+    if case.get("shared_tool", True):
+        from octave_mcp.mcp.write import WriteTool
+
+        shared_tool = WriteTool()
+    last_call = None  # (call dict, effective kind) of the most recent tool/CLI call, for 'resend'
 
     def V(clause, detail, step):
         viols.append({"clause": clause, "detail": f"step {step}: {detail}",
@@ -371,7 +381,24 @@ def _run_history(case, stats, root, target, TARGET):
             continue
         # ---- build the call
         call = {"entry": "tool", "mode": None}
-        if kind in ("content", "content_dry"):
+        step_kind = kind
+        if kind == "content_same":
+            # the text the file already holds (when it has one): a "nothing to do" shortcut must still honour base_hash
+            same = None
+            if cur is not None and cur_h is not None:
+                same = cur.decode("utf-8")
+            call.update(mode="content", text=same if same is not None else st["text"])
+            kind = "content"
+        elif kind == "resend" and last_call is not None:
+            # the client did not see the answer and sends the very same request again (same base_hash string, now possibly stale)
+            call = copy.deepcopy(last_call[0])
+            kind = last_call[1]
+        elif kind == "resend":
+            call.update(mode="normalize")
+            kind = "normalize"
+        if step_kind in ("content_same", "resend"):
+            pass
+        elif kind in ("content", "content_dry"):
             call.update(mode="content", text=st["text"], dry=kind.endswith("_dry"))
         elif kind in ("changes", "changes_dry"):
             call.update(mode="changes", changes=st["changes"], dry=kind.endswith("_dry"))
@@ -389,8 +416,11 @@ def _run_history(case, stats, root, target, TARGET):
             call.update(mode="content", text=st["text"], path=st["path"])
         elif kind == "bad_content":
             call.update(entry=st.get("entry", "tool"), mode="content", text=st["text"])
-        bh = bh_value(st["bhk"], cur, prev_hashes, st.get("text"))
-        call["bh"] = bh
+        if step_kind == "resend" and last_call is not None:
+            bh = call.get("bh")
+        else:
+            bh = bh_value(st["bhk"], cur, prev_hashes, st.get("text"))
+            call["bh"] = bh
         if case.get("target") and not call.get("path"):
             call["path"] = case["target"]
         if case.get("extra_args") and call["entry"] == "tool" and kind in ("content", "content_dry", "changes", "changes_dry", "normalize",
@@ -399,11 +429,13 @@ def _run_history(case, stats, root, target, TARGET):
         # ---- run it under the seam (single actor: op log, no scheduling)
         sim = seam.Simulation(root, Tape(values=[]), seam.Knobs(), record_unscoped=True)
         sim.claims_outside = True
-        a = sim.add_actor("c", make_call(call, root))
+        a = sim.add_actor("c", make_call(call, root, shared_tool))
         sim.run()
         if sim.bypass:
             raise seam.HarnessError(f"seam bypass: {sim.bypass[:3]}")
         out = outcome_of(call, a)
+        if kind in ("content", "changes", "normalize", "cli_content", "cli_changes", "atomic"):
+            last_call = (copy.deepcopy(call), kind)
         snap1 = fsmodel.snapshot(root)
         outside_writes = [(n_, p_) for _, n_, p_ in sim.outside_mutations] or [(n_, p_) for _, n_, p_, _ in sim.unscoped
                           if (n_ in ("mkdir", "rmdir", "replace", "rename", "unlink", "remove", "chmod", "truncate", "symlink", "link", "utime")
@@ -411,8 +443,8 @@ def _run_history(case, stats, root, target, TARGET):
                           and not p_.startswith(("/dev/", "/proc/"))]
         d = fsmodel.diff(snap0, snap1)
         mut_ops = [op.brief(root) for op in a.ops if op.cls in seam.MUTATING_CLASSES]
-        log.append([k, kind, st["bhk"], out.get("status"), out.get("code"), d])
-        sig_hist.append(f"{kind}/{st['bhk']}/{out.get('status')}/{out.get('code')}")
+        log.append([k, step_kind, st["bhk"], out.get("status"), out.get("code"), d])
+        sig_hist.append(f"{step_kind}/{st['bhk']}/{out.get('status')}/{out.get('code')}")
         # ---- the model
         exists = cur is not None
         decodable = cur_h is not None
@@ -473,7 +505,7 @@ def _run_history(case, stats, root, target, TARGET):
             if others:
                 V("frame", f"successful {kind} changed other entries: {others}", k)
         if stats is not None:
-            stats.group("l1_steps", f"{kind}:{st['bhk']}:{out.get('status')}:{out.get('code') or ''}")
+            stats.group("l1_steps", f"{step_kind}:{st['bhk']}:{out.get('status')}:{out.get('code') or ''}")
             if same_digest_other_spelling:
                 stats.group("probes", f"same_digest_spelling_{st['bhk']}_{status}")
     if stats is not None:
@@ -741,7 +773,8 @@ def abstract_trace(abstract, installs, outs, writers) -> str:
 # --------------------------------------------------------------------------- #
 
 L1X_ALPHABET = [(k, b) for k in ("content", "changes", "normalize", "content_dry") for b in ("none", "current", "stale", "future")] + [
-    ("ext_valid", "none"), ("ext_empty", "none"), ("ext_binary", "none"), ("content", "of_empty")]
+    ("ext_valid", "none"), ("ext_empty", "none"), ("ext_binary", "none"), ("content", "of_empty"),
+    ("content_same", "stale"), ("resend", "none")]
 
 
 def l1x_count(maxlen: int) -> int:
@@ -767,7 +800,7 @@ def l1x_history(index: int) -> dict:
         kind, bh = L1X_ALPHABET[d]
         st = {"kind": kind, "bhk": bh}
         mk = f"x{k}{d:x}"
-        if kind in ("content", "content_dry"):
+        if kind in ("content", "content_dry", "content_same"):
             st["text"] = f"===DOC===\nMETA:\n  TYPE::TEST\n  VERSION::\"1.0\"\nMARK::{mk}\nK0::v{k}\n===END===\n"
         elif kind == "changes":
             st["changes"] = {"MARK": "c" + mk}
